@@ -113,6 +113,8 @@ class Script:
         self.on_start = None
         self.orders = []              # per transition: kinds drawn
         self.it = None
+        self.own = None               # private generator for the unscripted (warm-up) transitions, so that their draws are known
+        self.zs = []                  # momentum of every transition
 
     def cur(self):
         j = self.k - self.first
@@ -133,8 +135,19 @@ class Script:
         if self.k >= 0:
             self.orders[-1].append(kind)
         if c is None:
+            if self.own is None or self.k < 0:
+                return None
+            if kind == "standard_normal":
+                zz = self.own.standard_normal(*a, **k)
+                self.zs.append(np.array(zz, dtype=float))
+                return zz
+            if kind == "exponential":
+                return self.own.exponential(*a, **k)
+            if kind == "rand":
+                return self.own.rand()
             return None
         if kind == "standard_normal":
+            self.zs.append(np.array(c[0], dtype=float))
             return np.array(c[0], dtype=float)
         if kind == "exponential":
             return np.array([c[1]], dtype=float)
@@ -166,8 +179,9 @@ def run_chain(cuqi, impl, spec, eps, md, x0, scripts, warm=0, warm_seed=1):
                 return r
 
             def step():
-                events.append(("step",))
-                return orig_step()
+                r = orig_step()
+                events.append(("step", float(s._current_alpha_ratio)))
+                return r
             s.tune, s.step = tune, step
             with ScriptedRandom(seed=warm_seed):
                 s.warmup(warm)
@@ -211,6 +225,8 @@ def run_chain(cuqi, impl, spec, eps, md, x0, scripts, warm=0, warm_seed=1):
         rec = Recorder(s)
         sc = Script(scripts, first=warm)
         sc.on_start = lambda scripted: rec.start()
+        if warm:
+            sc.own = np.random.RandomState(warm_seed)
         fge = s._FindGoodEpsilon
 
         def fge_wrapped(*a, **k):
@@ -237,7 +253,42 @@ def run_chain(cuqi, impl, spec, eps, md, x0, scripts, warm=0, warm_seed=1):
                             nrand=sum(1 for o in order if o == "rand"), nlast=len(tr["leaves"]) - tr["top"][-1] if tr["top"] else 0,
                             alpha=None, order=order, ntree=int(s.num_tree_node_list[k - 1]),
                             first=np.array(theta[:, 0], dtype=float), chain_x0=[float(v) for v in x0]))
+        if warm:
+            # the statistic of every warm-up iteration from its recorded leaves, for the dual-averaging oracle
+            alphas = []
+            for k in range(1, warm + 1):
+                tr, z = rec.trans[k - 1], sc.zs[k - 1]
+                h0 = float(joint[k - 1]) - 0.5 * float(np.dot(z, z))
+                last = tr["leaves"][tr["top"][-1]:] if tr["top"] else []
+                with np.errstate(all="ignore"):
+                    hs = [l[2] - 0.5 * float(np.dot(l[1], l[1])) for l in last]
+                    alphas.append(sum(leaf_alpha(h, h0) for h in hs) / max(1, len(hs)))
+            obs[0]["dual"] = {"eps0": float(s.epsilon_list[0]), "alphas": alphas, "used": [float(v) for v in s.epsilon_list],
+                              "bars": [None if v is None else float(v) for v in s.epsilon_bar_list]}
         return obs
+
+
+# ---------------- dual averaging of the step size (Hoffman & Gelman 2014, Algorithm 6) ----------------
+def dual_averaging(eps0, alphas, delta=0.6, gamma=0.05, t0=10, kappa=0.75):
+    """list of (eps_k, eps_bar_k), k = 1..len(alphas), from the acceptance statistics alpha_k"""
+    mu = math.log(10 * eps0)
+    Hbar, log_bar, out = 0.0, 0.0, []
+    for k, al in enumerate(alphas, start=1):
+        Hbar = (1 - 1 / (k + t0)) * Hbar + (delta - al) / (k + t0)
+        log_eps = mu - math.sqrt(k) / gamma * Hbar
+        eta = k ** (-kappa)
+        log_bar = eta * log_eps + (1 - eta) * log_bar
+        out.append((math.exp(log_eps), math.exp(log_bar)))
+    return out
+
+
+def leaf_alpha(hp, h0):
+    d = hp - h0
+    return 1.0 if d > 0 else math.exp(d)
+
+
+def relclose(a, b, tol=1e-9):
+    return abs(a - b) <= tol * (1 + abs(b))
 
 
 # ---------------- per-transition oracle on the observed data ----------------
@@ -580,17 +631,54 @@ def sched_case(o0, impl, spec, md, chain_meta):
     n_s = sum(1 for ev in sc["events"][i0:] if ev[0] == "step")
     used_s = sc["used"][-n_s:]
     fail = None
+    sig = "NUTS.exp.step_size_moves"
     if len(set(used_s[1:])) > 1:
         fail = "step size still changes during sampling: %s" % used_s
+    else:
+        # dual averaging: every tune() output from the statistic of the step before it
+        alphas, tunes, last_alpha = [], [], None
+        for ev in sc["events"]:
+            if ev[0] == "step":
+                last_alpha = ev[1]
+            elif ev[0] == "tune":
+                alphas.append(last_alpha)
+                tunes.append((ev[1], ev[2]))
+        if all(a is not None and np.isfinite(a) for a in alphas):
+            ref = dual_averaging(sc["eps0"], alphas)
+            for k, ((e1, b1), (e2, b2)) in enumerate(zip(tunes, ref), start=1):
+                if not (relclose(e1, e2) and relclose(b1, b2)):
+                    fail = ("tune() number %d set (epsilon, epsilon_bar) = (%r, %r); dual averaging from the statistics %s gives (%r, %r)"
+                            % (k, e1, b1, [round(a, 6) for a in alphas[:k]], e2, b2))
+                    sig = "NUTS.exp.dual_averaging"
+                    break
     meta = dict(chain_meta)
     meta["schedule"] = True
-    return Case(expr=expr, meta=meta, cell="exp/schedule/warm", kind="DECISION", impl_fail=fail, signature="NUTS.exp.step_size_moves" if fail else "")
+    return Case(expr=expr, meta=meta, cell="exp/schedule/warm", kind="DECISION", impl_fail=fail, signature=sig if fail else "")
+
+
+def dual_case(o0, spec, md, chain_meta, warm):
+    """legacy sampler: the step size of every iteration from the statistics of the warm-up iterations"""
+    du = o0["dual"]
+    fail = None
+    if all(np.isfinite(a) for a in du["alphas"]):
+        ref = dual_averaging(du["eps0"], du["alphas"])
+        # iteration 1 uses FindGoodEpsilon's value, iteration k+1 <= warm+1 the k-th dual-averaging iterate, later ones epsilon_bar
+        exp_used = [du["eps0"]] + [e for (e, b) in ref] + [ref[-1][1]] * max(0, len(du["used"]) - warm - 1)
+        for k, (u, e) in enumerate(zip(du["used"], exp_used), start=1):
+            if not relclose(u, e):
+                fail = ("iteration %d used step size %r; dual averaging from the acceptance statistics %s of the warm-up iterations gives %r"
+                        % (k, u, [round(a, 6) for a in du["alphas"][:k]], e))
+                break
+    meta = dict(chain_meta)
+    meta["dual"] = True
+    return Case(expr="true", meta=meta, cell="leg/dual-averaging/warm", kind="DECISION", impl_fail=fail,
+                signature="NUTS.leg.dual_averaging" if fail else "")
 
 
 def gen_chain(ctx, rng, cuqi, state, impl, tk, md, epsc, warm, cases, inners, n_tr=2):
     spec = gen_spec(rng, tk)
     d = dim_of(spec)
-    if warm and impl == "exp":
+    if warm:
         n_tr = 3
     if tk == "quartic":
         n_tr = 1      # the second start would be a rounded 53-bit float: the cubic map then produces 10^4-bit rationals
@@ -624,6 +712,8 @@ def gen_chain(ctx, rng, cuqi, state, impl, tk, md, epsc, warm, cases, inners, n_
             state["leg_eps_replaced"] += 1
     if impl == "exp" and warm and "sched" in obs[0]:
         cases.append(sched_case(obs[0], impl, spec, md, chain_meta))
+    if impl == "leg" and warm and "dual" in obs[0]:
+        cases.append(dual_case(obs[0], spec, md, chain_meta, warm))
 
 
 def tie_cases(ctx, rng, cuqi, state, cases):
